@@ -274,6 +274,7 @@ func main() {
 	factsShared(*repo)
 	factsJailBody(arch)
 	factsUnpackDecision(arch)
+	factsOrder(arch)
 	emit("")
 	emit("end GA.Facts")
 	fmt.Print(out.String())
